@@ -180,6 +180,8 @@ func workerMain(args []string) {
 	}
 
 	c09Var := 8
+	const amplify = 5
+	var steps0 int64
 	noiseBase = hashSeed(a.seed, 909, uint64(a.wid))
 	for i := a.from; i < a.to; i++ {
 		if a.deadline > 0 && time.Now().Unix() > a.deadline {
@@ -227,103 +229,129 @@ func workerMain(args []string) {
 				continue
 			}
 		}
-		tape.Reset(w.Seed)
-		cur = &Candidate{Prop: a.prop, Seed: a.seed, RunIdx: i, Wid: a.wid, Race: simrt.RaceEnabled, World: w}
-		curTape = tape
-		res := Execute(w, tape, gold, onFatal)
-		raceText := rl.newReports()
+		// Schedule amplification (C11): a world in which tasks actually met on a
+		// Once or a lock is worth more than one schedule - it is executed again under
+		// further tapes, with the other policies and with priority change points spread
+		// over the length the first execution had. Deterministic: which worlds are
+		// amplified is a function of the first execution.
+		w0 := w
+		nrep := 1
+		for rep := 0; rep < nrep; rep++ {
+			if rep > 0 {
+				wc := *w0
+				wc.Cfg.Policy = (w0.Cfg.Policy + rep) % simrt.NPolicies
+				if steps0 > 0 {
+					wc.Cfg.PCTSpan = int(steps0)
+				}
+				wc.Cfg.PCTDepth = 1 + rep%3
+				w = &wc
+			}
+			tape.Reset(hashSeed(w0.Seed, uint64(rep)*0x9e3779b97f4a7c15))
+			if rep == 0 {
+				tape.Reset(w0.Seed)
+			}
+			cur = &Candidate{Prop: a.prop, Seed: a.seed, RunIdx: i, Wid: a.wid, Race: simrt.RaceEnabled, World: w}
+			curTape = tape
+			res := Execute(w, tape, gold, onFatal)
+			raceText := rl.newReports()
+			if rep == 0 && a.prop == "C11" && (res.Stats.OnceContend > 0 || res.Stats.WriterBlock > 0) {
+				nrep = 1 + amplify
+				steps0 = res.Stats.Steps
+				sum.Probes["worlds-amplified"]++
+			}
 
-		sum.Runs++
-		sum.Ops += int64(res.Ops)
-		sum.Steps += res.Stats.Steps
-		sum.Switches += res.Stats.Switches
-		sum.LinChecked += res.LinChecked
-		sum.LinUnknown += res.LinUnknown
-		fired := uint64(0)
-		bit := uint64(1)
-		keys := make([]string, 0, len(res.FaultsFired))
-		for k := range res.FaultsFired {
-			keys = append(keys, k)
-		}
-		sort.Strings(keys)
-		for _, k := range keys {
-			v := res.FaultsFired[k]
-			sum.Faults[k] += v
-			if v > 0 {
-				fired |= bit
+			sum.Runs++
+			sum.Ops += int64(res.Ops)
+			sum.Steps += res.Stats.Steps
+			sum.Switches += res.Stats.Switches
+			sum.LinChecked += res.LinChecked
+			sum.LinUnknown += res.LinUnknown
+			fired := uint64(0)
+			bit := uint64(1)
+			keys := make([]string, 0, len(res.FaultsFired))
+			for k := range res.FaultsFired {
+				keys = append(keys, k)
 			}
-			bit <<= 1
-		}
-		torn := int64(0)
-		regPerm := int64(0)
-		for k := range w.Objects {
-			if w.Objects[k].Torn != "" {
-				torn++
+			sort.Strings(keys)
+			for _, k := range keys {
+				v := res.FaultsFired[k]
+				sum.Faults[k] += v
+				if v > 0 {
+					fired |= bit
+				}
+				bit <<= 1
 			}
-		}
-		for _, t := range w.Tasks {
-			for _, op := range t {
-				if op.Kind == "build" && (!isIdentity(op.TPerm) || !isIdentity(op.RPerm)) {
-					regPerm++
+			torn := int64(0)
+			regPerm := int64(0)
+			for k := range w.Objects {
+				if w.Objects[k].Torn != "" {
+					torn++
 				}
 			}
-		}
-		sum.Faults["torn-input"] += torn
-		sum.Faults["reg-order"] += regPerm
-		sum.Faults["other-process"] += 0
-		if torn > 0 {
-			fired |= 1 << 20
-		}
-		if regPerm > 0 {
-			fired |= 1 << 21
-		}
-		for k, v := range res.Probes {
-			sum.Probes[k] += v
-		}
-		reach = simrt.Reach(reach)
-		for s, n := range reach {
-			if n > 0 && s < len(siteHit) {
-				siteHit[s] = true
+			for _, t := range w.Tasks {
+				for _, op := range t {
+					if op.Kind == "build" && (!isIdentity(op.TPerm) || !isIdentity(op.RPerm)) {
+						regPerm++
+					}
+				}
 			}
-		}
-		// distinct / non-trivial accounting (rule in the evidence file)
-		nontrivial := fired != 0 || res.Stats.PoolCross > 0 || res.Stats.OnceContend > 0 || res.Stats.WriterBlock > 0
-		if nontrivial {
-			shapes[hashSeed(worldShape(w), fired, res.EventHash)] = true
-		}
-		if res.Stats.Switches > 0 {
-			inter[res.EventHash] = true
-		}
-		if a.det {
-			sum.DetCheck = append(sum.DetCheck, fmt.Sprintf("%d:%x:%x:%x", i, res.EventHash, res.ObsHash, fnv(0, normalizeRace(raceText))))
-		}
-		if len(sum.Samples) < 3 && nontrivial && (i-a.from)%7 == 0 {
-			sum.Samples = append(sum.Samples, sampleOf(w, res))
-		}
+			sum.Faults["torn-input"] += torn
+			sum.Faults["reg-order"] += regPerm
+			sum.Faults["other-process"] += 0
+			if torn > 0 {
+				fired |= 1 << 20
+			}
+			if regPerm > 0 {
+				fired |= 1 << 21
+			}
+			for k, v := range res.Probes {
+				sum.Probes[k] += v
+			}
+			reach = simrt.Reach(reach)
+			for s, n := range reach {
+				if n > 0 && s < len(siteHit) {
+					siteHit[s] = true
+				}
+			}
+			// distinct / non-trivial accounting (rule in the evidence file)
+			nontrivial := fired != 0 || res.Stats.PoolCross > 0 || res.Stats.OnceContend > 0 || res.Stats.WriterBlock > 0
+			if nontrivial {
+				shapes[hashSeed(worldShape(w), fired, res.EventHash)] = true
+			}
+			if res.Stats.Switches > 0 {
+				inter[res.EventHash] = true
+			}
+			if a.det {
+				sum.DetCheck = append(sum.DetCheck, fmt.Sprintf("%d.%d:%x:%x:%x", i, rep, res.EventHash, res.ObsHash, fnv(0, normalizeRace(raceText))))
+			}
+			if len(sum.Samples) < 3 && nontrivial && (i-a.from)%7 == 0 {
+				sum.Samples = append(sum.Samples, sampleOf(w, res))
+			}
 
-		var viol *Violation
-		if len(res.Violations) > 0 {
-			viol = &res.Violations[0]
-		}
-		if raceText != "" {
-			if !raceHasLibraryFrame(raceText) {
-				fmt.Fprintln(os.Stderr, "jsim: race report without a library frame (harness bug):\n"+raceText)
-				os.Exit(exitHarnessBug)
+			var viol *Violation
+			if len(res.Violations) > 0 {
+				viol = &res.Violations[0]
 			}
-			// a data race is a violation whatever the results were
-			viol = &Violation{Class: "race", Kind: raceSig(raceText), Detail: "data race reported by the Go race detector"}
-		}
-		if viol != nil && sum.Violations >= 60 {
-			sum.Violations++ // counted, not emitted: the coordinator has enough to work with
-		} else if viol != nil {
-			c := *cur
-			c.Tape = tape.Snapshot()
-			c.Violation = *viol
-			c.EventHash, c.ObsHash, c.Steps = res.EventHash, res.ObsHash, res.Stats.Steps
-			c.RaceText = raceText
-			emit("CAND", &c)
-			sum.Violations++
-		}
+			if raceText != "" {
+				if !raceHasLibraryFrame(raceText) {
+					fmt.Fprintln(os.Stderr, "jsim: race report without a library frame (harness bug):\n"+raceText)
+					os.Exit(exitHarnessBug)
+				}
+				// a data race is a violation whatever the results were
+				viol = &Violation{Class: "race", Kind: raceSig(raceText), Detail: "data race reported by the Go race detector"}
+			}
+			if viol != nil && sum.Violations >= 60 {
+				sum.Violations++ // counted, not emitted: the coordinator has enough to work with
+			} else if viol != nil {
+				c := *cur
+				c.Tape = tape.Snapshot()
+				c.Violation = *viol
+				c.EventHash, c.ObsHash, c.Steps = res.EventHash, res.ObsHash, res.Stats.Steps
+				c.RaceText = raceText
+				emit("CAND", &c)
+				sum.Violations++
+			}
+		} // rep
 	}
 	sum.WallS = time.Since(t0).Seconds()
 	sum.Goldens = gs.computed
